@@ -261,6 +261,9 @@ def shards(tier):
     for a in sred:
         out.append(("sci3", a, tuple(sred) if tier == "quick" else tuple(sn)))
     out.append(("scigroups",))
+    # long streams (several hundred bytes): the same item many times over, and alternations - nothing may pile up in the receiver
+    out.append(("lubalong", tuple(red)))
+    out.append(("scilong", tuple(sred)))
     return out
 
 
@@ -313,6 +316,16 @@ def _run(shard, res):
                 for d in small:
                     outs.add(check_stream(res, "luba", [a, b, c, d], ALL[a] + ALL[b] + ALL[c] + ALL[d], fast=True))
                     res["evaluations"] += 1
+        elif k == "lubalong":
+            for nm in names:
+                for n in (40, 100):
+                    outs.add(check_stream(res, "luba", [nm] * n, ALL[nm] * n, fast=True))
+                    res["evaluations"] += 1
+            for a in shard[1]:
+                for b in shard[1]:
+                    if a != b:
+                        outs.add(check_stream(res, "luba", [a, b] * 50, (ALL[a] + ALL[b]) * 50, fast=True))
+                        res["evaluations"] += 1
         elif k == "lubaframe":
             for cmd in range(shard[1], shard[2]):
                 for L in range(256):
@@ -349,6 +362,16 @@ def _run(shard, res):
                 for c in (red if len(red) < 20 else red[::3]):
                     outs.add(check_stream(res, "sci", [a, b, c], S[a] + S[b] + S[c], fast=True))
                     res["evaluations"] += 1
+        elif k == "scilong":
+            for nm in names:
+                for n in (40, 100):
+                    outs.add(check_stream(res, "sci", [nm] * n, S[nm] * n, fast=True))
+                    res["evaluations"] += 1
+            for a in shard[1]:
+                for b in shard[1]:
+                    if a != b:
+                        outs.add(check_stream(res, "sci", [a, b] * 50, (S[a] + S[b]) * 50, fast=True))
+                        res["evaluations"] += 1
         elif k == "scigroups":
             for st in range(256):
                 for hi, mid, lo in ((0, 0, 0), (0x07, 0xFE, 0x30), (0xFF, 0xFF, 0xFF), (0, 0x03, 0xA0), (0, 0, 3), (1, 2, 6)):
